@@ -35,24 +35,27 @@ structure WritesTo (d d' : Dev) (p : Nat) (bs : List Nat) : Prop where
   dirty : bs ≠ [] → d'.fs.curDirty = true
   keep : d.fs.curDirty = true → d'.fs.curDirty = true
   bytes : d.img.WF → ∀ q, 0x42 ≤ q → d'.img.getByte q = putBytes d.img.getByte p bs q
+  /-- the FS-info cache of the mounted state is not touched -/
+  info : d'.fs.fsInfo = d.fs.fsInfo
 
 theorem WritesTo.refl (d : Dev) (p : Nat) : WritesTo d d p [] :=
-  ⟨DevStep.refl d, fun h => absurd rfl h, id, fun _ q _ => by rw [putBytes_nil]⟩
+  ⟨DevStep.refl d, fun h => absurd rfl h, id, fun _ q _ => by rw [putBytes_nil], rfl⟩
 
 theorem WritesTo.of_sameStore {d d1 d2 : Dev} {p : Nat} {bs : List Nat} (h : WritesTo d d1 p bs) (hs : SameStore d1 d2) :
     WritesTo d d2 p bs :=
   ⟨h.step.trans (DevStep.of_sameStore hs), fun hn => by rw [hs.fs]; exact h.dirty hn,
-   fun hk => by rw [hs.fs]; exact h.keep hk, fun hw q hq => by rw [hs.img]; exact h.bytes hw q hq⟩
+   fun hk => by rw [hs.fs]; exact h.keep hk, fun hw q hq => by rw [hs.img]; exact h.bytes hw q hq,
+   by rw [hs.fs]; exact h.info⟩
 
 theorem WritesTo.of_sameStore_left {d d1 d2 : Dev} {p : Nat} {bs : List Nat} (hs : SameStore d d1)
     (h : WritesTo d1 d2 p bs) : WritesTo d d2 p bs :=
   ⟨(DevStep.of_sameStore hs).trans h.step, h.dirty, fun hk => h.keep (by rw [hs.fs]; exact hk),
-   fun hw q hq => by rw [h.bytes (by rw [hs.img]; exact hw) q hq, hs.img]⟩
+   fun hw q hq => by rw [h.bytes (by rw [hs.img]; exact hw) q hq, hs.img], by rw [h.info, hs.fs]⟩
 
 theorem WritesTo.append {d d1 d2 : Dev} {p : Nat} {a b : List Nat} (h1 : WritesTo d d1 p a)
     (h2 : WritesTo d1 d2 (p + a.length) b) : WritesTo d d2 p (a ++ b) := by
   have hkeep := h2.keep
-  refine ⟨h1.step.trans h2.step, fun hn => ?_, fun hk => h2.keep (h1.keep hk), fun hw q hq => ?_⟩
+  refine ⟨h1.step.trans h2.step, fun hn => ?_, fun hk => h2.keep (h1.keep hk), fun hw q hq => ?_, h2.info.trans h1.info⟩
   · by_cases hb : b = []
     · subst hb
       simp only [List.append_nil] at hn
@@ -69,19 +72,19 @@ theorem WritesTo.append {d d1 d2 : Dev} {p : Nat} {a b : List Nat} (h1 : WritesT
 
 theorem run_markDirty (d : Dev) (hfa : d.failAt = none) (hsz : 0x42 ≤ d.img.size) :
     ∃ d', run markDirtyBeforeWrite d = (.ok (), d') ∧ DevStep d d' ∧ d'.fs.curDirty = true ∧ d'.pos = d.pos ∧
-      (d.img.WF → ∀ q, 0x42 ≤ q → d'.img.getByte q = d.img.getByte q) := by
+      (d.img.WF → ∀ q, 0x42 ≤ q → d'.img.getByte q = d.img.getByte q) ∧ d'.fs.fsInfo = d.fs.fsInfo := by
   unfold markDirtyBeforeWrite
   rw [run_bind_ok (run_getFs d)]
   by_cases hc : d.fs.curDirty = true
   · simp only [hc, if_true]
-    exact ⟨d, rfl, DevStep.refl d, hc, rfl, fun _ _ _ => rfl⟩
+    exact ⟨d, rfl, DevStep.refl d, hc, rfl, fun _ _ _ => rfl, rfl⟩
   · simp only [hc, Bool.false_eq_true, if_false]
     rw [run_bind_ok (run_seekCur0 d hfa)]
-    obtain ⟨d2, h2, hs2, hd2, _, hb2⟩ := run_setDirtyFlag_true (d.didSeek d.pos) hfa (by simpa using hsz)
+    obtain ⟨d2, h2, hs2, hd2, hi2, hb2⟩ := run_setDirtyFlag_true (d.didSeek d.pos) hfa (by simpa using hsz)
     rw [run_bind_ok h2]
     have hfa2 : d2.failAt = none := by rw [hs2.failAt]; exact hfa
     rw [run_bind_ok (run_seekStart d.pos d2 hfa2)]
-    refine ⟨d2.didSeek d.pos, rfl, ?_, hd2, rfl, fun hw q hq => ?_⟩
+    refine ⟨d2.didSeek d.pos, rfl, ?_, hd2, rfl, fun hw q hq => ?_, hi2⟩
     · exact ((DevStep.of_sameStore (sameStore_didSeek d d.pos)).trans hs2).trans
         (DevStep.of_sameStore (sameStore_didSeek d2 d.pos))
     · show d2.img.getByte q = _
@@ -95,7 +98,7 @@ theorem run_adapter_write (bs : List Nat) (hne : bs ≠ []) (d : Dev) (hfa : d.f
     cases bs with
     | nil => exact absurd rfl hne
     | cons _ _ => simp
-  obtain ⟨d1, h1, hs1, hd1, hp1, hb1⟩ := run_markDirty d hfa hsz
+  obtain ⟨d1, h1, hs1, hd1, hp1, hb1, hi1⟩ := run_markDirty d hfa hsz
   have hfa1 : d1.failAt = none := by rw [hs1.failAt]; exact hfa
   have hmin : min bs.length (d1.img.size - d1.pos) = bs.length := by rw [hs1.size, hp1]; omega
   refine ⟨didWrite d1 bs, ?_, ?_⟩
@@ -106,7 +109,7 @@ theorem run_adapter_write (bs : List Nat) (hne : bs ≠ []) (d : Dev) (hfa : d.f
       ⟨rfl, didWrite_img_size _ _, fun hw => by
         rw [didWrite_img _ _ (by rw [hs1.size, hp1]; exact hfit)]; exact Img.wf_write _ hw _ _,
        FsGeomEq.refl _, rfl⟩
-    refine ⟨hs1.trans hstep, fun _ => hd1, fun _ => hd1, fun hw q hq => ?_⟩
+    refine ⟨hs1.trans hstep, fun _ => hd1, fun _ => hd1, fun hw q hq => ?_, hi1⟩
     rw [didWrite_img _ _ (by rw [hs1.size, hp1]; exact hfit), Img.getByte_write _ (hs1.wf hw), hp1]
     unfold putBytes
     split
